@@ -579,6 +579,10 @@ func replay() {
 		truncations(file, exp, "replay")
 		ctx.Finish("replay")
 	}
+	if m["kind"] == "deep" || m["kind"] == "job" {
+		deepInputs()
+		ctx.Finish("replay")
+	}
 	data = engine.UnHex(m["input"].(string))
 	var _ io.Reader
 	basic(data, "replay", "replay")
